@@ -223,7 +223,7 @@ Print Assumptions C10_sac_components_add_up.
     increment count, and non-negativity of its fluxes; (2) the whole-step water budget
     rain = runoff + actualET + losses + change in stores, hence cumulative runoff + AET <=
     cumulative rain.  (1) is in fact FALSE for some parameters accepted by C10_sac_ok: see the
-    three _refuted theorems below (two known findings). *)
+    four _refuted theorems below (two known findings). *)
 Theorem C10_sacramento_c10_partial : forall p st io, C10_sac_ok p = true -> C10_qq_ok (qq st) ->
   0 <= fst io -> 0 <= snd io ->
   let l := sac_land p st io in
@@ -235,7 +235,7 @@ Theorem C10_sacramento_c10_partial : forall p st io, C10_sac_ok p = true -> C10_
 Proof. exact sacramento_c10_partial. Qed.
 Print Assumptions C10_sacramento_c10_partial.
 
-(** REFUTED (known finding sacramento-adimc-unbounded): with lztwm < 10 mm the additional
+(** REFUTED (known finding sacramento-adimc-unguarded): with lztwm < 10 mm the additional
     impervious store exceeds its capacity uztwm + lztwm after one day from the model's own zero
     state (witness: defaults with lztwm = 1, one day of 54 mm) ... *)
 Theorem C10_sac_adimc_bound_refuted : exists p io, C10_sac_ok p = true /\ io_nonneg io /\
@@ -250,6 +250,19 @@ Theorem C10_sac_adimc_negative_refuted : exists p io, C10_sac_ok p = true /\ io_
   adimc st < 0.
 Proof. exact sac_adimc_negative_refuted. Qed.
 Print Assumptions C10_sac_adimc_negative_refuted.
+
+(** ... and the same missing guard bites for lztwm >= 10 as well: from a state inside every
+    individual store bound but with adimc < uztwc - lztwm (reached in the real code after free
+    water has been transferred to tension water during a dry spell, see
+    corpus/C10/sacramento_ratio_negative_storm.json) one 29 mm day makes adimc = -285 and
+    reports 97 mm of impervious runoff *)
+Theorem C10_sac_adimc_ratio_negative_refuted : exists p s0 s1 s2 s3 s4 s5 io, C10_sac_ok p = true /\ io_nonneg io /\
+  10 <= lztwm p /\
+  0 <= s0 <= uztwm p /\ 0 <= s1 <= uzfwm p /\ 0 <= s2 <= lztwm p /\ 0 <= s3 <= lzfpm p /\
+  0 <= s4 <= lzfsm p /\ 0 <= s5 <= uztwm p + lztwm p /\
+  adimc (fst (sac_run p (sac_init p s0 s1 s2 s3 s4 s5) io)) < 0.
+Proof. exact sac_adimc_ratio_negative_refuted. Qed.
+Print Assumptions C10_sac_adimc_ratio_negative_refuted.
 
 (** REFUTED (known finding sacramento-fracp-unguarded): from a state inside all store bounds
     one dry day drives the supplemental lower-zone free-water store negative (possible whenever
